@@ -36,6 +36,16 @@ def classify(pid, report, eng, ops):
             if any(name in text for name in sd):
                 return pid + '-UNLOADED-SEED-REVERSE-NOT-MAINTAINED'
 
+    # --- a flush that failed midway (loud) had already consumed the pending many-to-many bookkeeping; the program
+    #     went on in the same session and a later commit did not write / remove those link rows
+    if mon == 'commit' and kind == 'links_differ' and det.get('failed_flush_continued'):
+        return pid + '-FAILED-FLUSH-LOSES-PENDING-M2M'
+
+    # --- DELETE of a row that the database still sees referenced by a row the same flush deletes later / re-points
+    if mon == 'fkorder' and kind == 'foreign_key_error_on_flush' and det.get('failed_sql', '').startswith('DELETE') \
+            and det.get('deleted_row_still_referenced_in_db') and not det.get('cycle'):
+        return pid + '-DELETE-BEFORE-REFERRER-WRITTEN'
+
     # --- walker / read reports right after a failed call whose failure is the known cascade-cycle mechanism
     fc = det.get('after_failed_call')
     if fc and mon != 'atomic':
